@@ -157,6 +157,9 @@ impl Scheduler {
         // Ensure workers are spawned for this processor (lazy initialization).
         self.inner.ensure_workers_spawned(processor_id);
 
+        #[cfg(folo_verif)]
+        crate::verif::point("sp.state", u64::from(processor_id));
+
         let state = self.inner.registry.get_or_init(processor_id);
 
         // Rent a oneshot channel for the result.
@@ -167,13 +170,25 @@ impl Scheduler {
 
         let dyn_task = allocate_task(state, wrapped);
 
+        #[cfg(folo_verif)]
+        crate::verif::point("sp.push", u64::from(processor_id));
+        #[cfg(folo_verif)]
+        let verif_task = crate::verif::task_address(&dyn_task);
+
         // Push to the appropriate queue.
         if urgent {
+            #[cfg(not(folo_verif))]
             state
                 .urgent_queue
                 .lock()
                 .expect(NEVER_POISONED)
                 .push_back(dyn_task);
+            #[cfg(folo_verif)]
+            {
+                let mut queue = state.urgent_queue.lock().expect(NEVER_POISONED);
+                queue.push_back(dyn_task);
+                crate::verif::event("enqueue_urgent", u64::from(processor_id), verif_task);
+            }
             trace!(
                 pool_name = self.inner.pool_name.as_str(),
                 pool_id = self.inner.pool_id,
@@ -181,11 +196,18 @@ impl Scheduler {
                 "spawned urgent task"
             );
         } else {
+            #[cfg(not(folo_verif))]
             state
                 .regular_queue
                 .lock()
                 .expect(NEVER_POISONED)
                 .push_back(dyn_task);
+            #[cfg(folo_verif)]
+            {
+                let mut queue = state.regular_queue.lock().expect(NEVER_POISONED);
+                queue.push_back(dyn_task);
+                crate::verif::event("enqueue_regular", u64::from(processor_id), verif_task);
+            }
             trace!(
                 pool_name = self.inner.pool_name.as_str(),
                 pool_id = self.inner.pool_id,
@@ -196,6 +218,9 @@ impl Scheduler {
 
         // Record the spawn for metrics.
         state.record_task_spawned();
+
+        #[cfg(folo_verif)]
+        crate::verif::point("sp.notify", u64::from(processor_id));
 
         // Notify one worker that work is available.
         state.wake_event.notify(1);
